@@ -13,6 +13,12 @@ step machine over the `Arc` strong count.
   re-entrant emission:           the wrapped recorder, while executing the forwarded call, itself emits through the
                                  same wrapper (exporter telemetry): weak.upgrade → weak.upgrade (nested) → rec.inside
                                  (nested) → rec.inside (outer) — the thread then holds TWO strong references
+  kept handle:                   a `register_*` through the wrapper whose returned Counter / Gauge / Histogram the caller KEEPS
+                                 (`let c = counter!(..)`): upgrade → inside → leave exactly as an emission — the arm
+                                 `recorder.register_counter(key, metadata)` hands the recorder's own handle on, the `Arc`
+                                 local is dropped at the end of the arm; the thread's `kept` list remembers the handle
+                                 (live = it came from the recorder, inert = `Counter::noop()`).  Writing through kept
+                                 handles (`k.use`) and dropping them (`k.drop`) touches no field of the pair.
   install:                       build, `set_global_recorder(wrapper)`; cell taken → wrapper dropped (weak only),
                                  `handle.into_inner()` with no emitter, recorder handed back in the error
 
@@ -27,6 +33,9 @@ inductive Call
   | dropHandle         -- drop(RecoveryHandle)
   | emitPanic          -- an emission during which the wrapped recorder panics (the thread survives the unwind)
   | emitNested         -- an emission during which the wrapped recorder emits once more through the same wrapper
+  | emitKeep           -- a register_* through the wrapper whose returned handle the caller keeps
+  | useKept            -- the caller writes through every handle it kept
+  | dropKept           -- the caller drops every handle it kept
   deriving Repr, DecidableEq
 
 inductive Res
@@ -37,18 +46,23 @@ inductive Res
   | panicked           -- the call reached the wrapped recorder, which panicked; the unwind released the reference
   | nestedDelivered    -- the re-entrant (inner) call of an `emitNested` reached the wrapped recorder
   | nestedIgnored      -- the re-entrant (inner) call of an `emitNested` was answered with an inert handle
+  | used (live inert : Nat)   -- wrote through the kept handles: so many reached the recorder's storage, so many were inert
+  | keptDropped (n : Nat)     -- dropped `n` kept handles
   deriving Repr, DecidableEq
 
 inductive PC
   | start | upgrade | inside | tryUnwrap | hdrop | done
   | nUpgrade           -- inside the recorder (outer call), about to upgrade again for the re-entrant call
   | nInside            -- inside the recorder twice (outer and re-entrant call)
+  | use                -- about to write through the kept handles
+  | kdrop              -- about to drop the kept handles
   deriving Repr, DecidableEq
 
 structure Thread where
   calls : List Call
   pc : PC
   results : List Res
+  kept : List Bool := []       -- metric handles the caller kept, oldest first: `true` live (the recorder's), `false` inert (no-op)
   deriving Repr, DecidableEq
 
 structure Sys where
@@ -68,6 +82,9 @@ def pcOfCall : Call → PC
   | .dropHandle => .hdrop
   | .emitPanic => .upgrade
   | .emitNested => .upgrade
+  | .emitKeep => .upgrade
+  | .useKept => .use
+  | .dropKept => .kdrop
 
 def Thread.advance (t : Thread) (r : Res) : Thread :=
   let rest := t.calls.tail
@@ -97,6 +114,26 @@ def upgradeStep (s : Sys) (t : Thread) (pc' : PC) : Sys × Thread :=
 def leaveStep (s : Sys) (t : Thread) (r : Res) : Sys × Thread :=
   (release { s with inside := s.inside - 1 }, t.advance r)
 
+/-- the `weak.upgrade` step of a registration whose handle is kept: enter the recorder, or keep the inert
+    handle (`Counter::noop()`) the wrapper answers with -/
+def keepUpgradeStep (s : Sys) (t : Thread) : Sys × Thread :=
+  if s.strong > 0 then (enter s, { t with pc := .inside })
+  else (s, { (t.advance .ignored) with kept := t.kept ++ [false] })
+
+/-- the registration returns: the strong reference of the call is dropped as for every emission; what the
+    caller keeps is the wrapped recorder's own handle, which holds no reference to the `Arc` of the pair -/
+def keepLeaveStep (s : Sys) (t : Thread) : Sys × Thread :=
+  (release { s with inside := s.inside - 1 }, { (t.advance .delivered) with kept := t.kept ++ [true] })
+
+/-- writing through the kept handles: live ones reach the storage the recorder handed out, inert ones nothing;
+    neither enters the recorder nor touches the count -/
+def useStep (s : Sys) (t : Thread) : Sys × Thread :=
+  (s, t.advance (.used (t.kept.filter (· == true)).length (t.kept.filter (· == false)).length))
+
+/-- dropping the kept handles: no field of the pair changes (in particular nothing is finalised by it) -/
+def kdropStep (s : Sys) (t : Thread) : Sys × Thread :=
+  (s, { (t.advance (.keptDropped t.kept.length)) with kept := [] })
+
 def stepThread (s : Sys) (t : Thread) : Sys × Thread :=
   match t.pc, t.calls with
   | .start, [] => (s, { t with pc := .done })
@@ -119,6 +156,10 @@ def stepThread (s : Sys) (t : Thread) : Sys × Thread :=
     else (s, t)                                   -- retry
   | .hdrop, .dropHandle :: _ =>
     if s.handle then (release { s with handle := false }, t.advance .dropped) else (s, t.advance .dropped)
+  | .upgrade, .emitKeep :: _ => keepUpgradeStep s t
+  | .inside, .emitKeep :: _ => keepLeaveStep s t
+  | .use, .useKept :: _ => useStep s t
+  | .kdrop, .dropKept :: _ => kdropStep s t
   | _, _ => (s, t)
 
 def step (s : Sys) (tid : Nat) : Sys :=
@@ -134,6 +175,7 @@ def PC.label : PC → String
   | .start => "start" | .upgrade => "weak.upgrade" | .inside => "rec.inside"
   | .tryUnwrap => "spin0:recover.try_unwrap" | .hdrop => "h.drop" | .done => "done"
   | .nUpgrade => "weak.upgrade" | .nInside => "rec.inside"
+  | .use => "k.use" | .kdrop => "k.drop"
 
 /-! ### `RecoverableRecorder::install` against the process-wide recorder cell
 
